@@ -134,6 +134,56 @@ func execRedErr(args []string) string {
 	return txt + " intact=" + b2s(ok)
 }
 
+// rederr2: args as rederr (the error is a top-level *url.Error).  The URL given to
+// RedactUserinfoInURLError is itself the RESULT of RedactUserinfo (so its Userinfo is the package's
+// shared mask value): it has userinfo, and the error text is rewritten like for any other URL.
+func execRedErr2(args []string) string {
+	u := urlutil.RedactUserinfo(buildURL(args))
+	refStr := u.String()
+	ue := &url.Error{Op: "Get", URL: "ORIGINAL-URL-TEXT", Err: errors.New("inner")}
+	before := deepCopyURL(u)
+	urlutil.RedactUserinfoInURLError(u, ue)
+	txt := "X:" + HS(ue.URL)
+	switch ue.URL {
+	case "ORIGINAL-URL-TEXT":
+		txt = "O"
+	case refStr:
+		txt = "R"
+	}
+	return txt + " intact=" + b2s(ue.Op == "Get" && reflect.DeepEqual(before, u))
+}
+
+// redact3: args = the URL fields, then a field number and a new value (hex).  RedactUserinfo is called,
+// the field of the INPUT is changed (by the caller, as it may), and RedactUserinfo is called again on the
+// same pointer: the second result is the redaction of the URL as it is now.
+func execRedact3(args []string) string {
+	u := buildURL(args)
+	first := urlutil.RedactUserinfo(u)
+	_ = first.String()
+	nv := string(UnH(args[12]))
+	switch args[11] {
+	case "0":
+		u.Scheme = nv
+	case "3":
+		u.Host = nv
+	case "4":
+		u.Path = nv
+	case "8":
+		u.RawQuery = nv
+	case "9":
+		u.Fragment = nv
+	}
+	second := urlutil.RedactUserinfo(u)
+	want := deepCopyURL(u)
+	if want.User != nil {
+		want.User = url.UserPassword("xxxxx", "xxxxx")
+	}
+	if reflect.DeepEqual(second, want) || (u.User == nil && second == u) {
+		return "second=redaction-of-current-input"
+	}
+	return "second=" + second.String() + " want=" + want.String()
+}
+
 func genC16(g *G) {
 	strs := []string{"", "a", "http", "example.com", "example.com:80", "/p a/th", "/p%20a", "x=1&y=2", "frag", "sEcReT", "xxxxx", "%41", "é", "mailto", "user@host", "a:b", "//"}
 	pick := func() string { return HS(strs[g.Rnd.IntN(len(strs))]) }
@@ -177,13 +227,17 @@ func genC16(g *G) {
 		g.Emit("redact2", append(f, userSpec(false), userSpec(false))...)
 		kinds := []string{"nil", "url", "other", "wrapfmt", "wrapjoin", "wrapcustom"}
 		g.Emit("rederr", append(fields(userSpec(true)), kinds[g.Rnd.IntN(len(kinds))])...)
+		if i%10 == 0 {
+			g.Emit("rederr2", fields(userSpec(true))...)
+			g.Emit("redact3", append(fields(userSpec(true)), []string{"0", "3", "4", "8", "9"}[g.Rnd.IntN(5)], pick())...)
+		}
 	}
 }
 
 func init() {
 	properties["C16"] = &Property{
 		Gen:  genC16,
-		Exec: map[string]Executor{"redact": execRedact, "redact2": execRedact2, "rederr": execRedErr},
+		Exec: map[string]Executor{"redact": execRedact, "redact2": execRedact2, "rederr": execRedErr, "rederr2": execRedErr2, "redact3": execRedact3},
 		Nontrivial: func(fn string, args []string, obs string) bool {
 			return args[2] != "n" || fn == "redact2" // a URL with userinfo
 		},
